@@ -350,7 +350,7 @@ func connLane(r *mon.Run) {
 	}
 	defer e.Close()
 	rng := r.Rand("c12-conn")
-	n := r.Pick(10, 300)
+	n := r.Pick(6, 300)
 	for i := 0; i < n; i++ {
 		runConnHistory(r, e, rng, 4+rng.Intn(5), 1+rng.Intn(2))
 		if r.Violations() > 8 {
